@@ -29,7 +29,7 @@ func (c02) Cases(tier string) int {
 }
 
 func (c02) Rule() string {
-	return "same federated stream as C01 (corpus, then random federations x data x type-directed queries with variables in arguments and in @skip/@include on fields, inline fragments and spreads); every request received by every in-process service is checked: validates against the service's own schema with gqlparser's full rule set (unknown fields/arguments/types, undefined or unused variables, unknown or unused fragments), operation kind = client's for root steps and query for node(id) follow-ups, variable values supplied only for declared variables and equal to the client's; non-trivial = at least 2 service calls; distinct = distinct (federation, query)"
+	return "same federated stream as C01 (corpus, then random federations x data x type-directed queries with variables in arguments and in @skip/@include on fields, inline fragments and spreads); every request received by every in-process service is checked: validates against the service's own schema with gqlparser's full rule set (unknown fields/arguments/types, undefined or unused variables, unknown or unused fragments), operation kind = client's for root steps and query for node(id) follow-ups, variable values supplied only for declared variables and equal to the client's; non-trivial = at least 2 service calls; distinct = distinct (federation, query); every fifth case a federation whose services declare an executable directive of their own (@audience with a list and an input-object argument) used on fields, inline fragments and spreads with variables inside the argument literals (L0.directive-variables)"
 }
 
 // CheckCalls applies the C02 oracle to the request logs of an executed case.
